@@ -284,6 +284,7 @@ def main(argv):
         findings.append(Finding("build", "the harness no longer builds against /repo with hooks on:\n" + tail))
     # 2. theorems ---------------------------------------------------------------------------
     obligations = discharged = 0
+    rechecked = "not run (quick tier)"
     axioms = []
     thm_names = []
     if spec.get("module") is None:
@@ -299,6 +300,12 @@ def main(argv):
         obligations, discharged, axioms, problems, thm_names = audit_lean(spec["module"])
         for p in problems:
             findings.append(Finding("proof", p))
+        # thorough tier: the compiled theorem module is re-checked by Lean's independent checker
+        if tier == "thorough" and shutil.which("leanchecker"):
+            rcc, outc = sh(["lake", "env", "leanchecker", spec["module"]], cwd=LEAN, timeout=3600)
+            rechecked = "ok" if rcc == 0 else "FAILED"
+            if rcc != 0:
+                findings.append(Finding("proof", f"leanchecker rejects the compiled module {spec['module']}: " + outc.strip()[-300:]))
 
     if replay:
         return do_replay(pid, spec, replay)
@@ -396,6 +403,7 @@ def main(argv):
             "trusted_base": TRUSTED_BASE + spec.get("trusted_extra", []),
             "theorems": thm_names,
             "axioms_seen": axioms,
+            "leanchecker": rechecked,
             "evaluations": total_lines,
             "distinct_nontrivial": len(distinct),
             "rule": spec.get("rule", "each trace line is one implementation step (operation, oracle inputs, observed result/state) replayed through the Lean model; distinct = distinct lines (operation + observed result) over all traces of this run"),
